@@ -251,3 +251,29 @@ def _f26(f, pid, case, clause, ctx):
     except Exception:
         return False
     return len(cfgs) >= 2 and any(any(c[k] != cfgs[0][k] for c in cfgs[1:]) for k in f["params"]["keys"])
+
+
+@matcher("dask_int_array_index_out_of_bounds_wraps")
+def _f27(f, pid, case, clause, ctx):
+    act = _act(case)
+    return (act.get("a") == "AdvIndex" and act.get("mode") == "intarr" and act.get("lib") == "da" and not act.get("ok")
+            and clause == "invalid-operation-did-not-raise")
+
+
+@matcher("vindex_with_kept_axis")
+def _f28(f, pid, case, clause, ctx):
+    act = _act(case)
+    if act.get("a") != "AdvIndex" or act.get("mode") != "vindex" or not any(len(l) == 0 for l in act.get("lists", [])):
+        return False
+    d = case.get("detail", "")
+    return (clause == "raised" and "could not broadcast input array" in d) or clause in ("shape", "advertised-shape")
+
+
+@matcher("slice_after_dask_int_array_index")
+def _f29(f, pid, case, clause, ctx):
+    prog = case.get("prog", [])
+    outs = {a.get("out") for a in prog if a.get("a") == "AdvIndex" and a.get("mode") == "intarr" and a.get("lib") == "da"}
+    if not any(a.get("x") in outs and a.get("a") in ("Index", "AdvIndex") for a in prog):
+        return False
+    txt = " ".join(str(case.get(k, "")) for k in ("detail", "err", "opt_err"))
+    return "ArrayOffsetDep" in txt
